@@ -114,7 +114,7 @@ pub fn test_b(c0: &crate::c06b::Case) -> Verdict {
     Verdict::pass(true, &[routine, c.be.name()])
 }
 
-fn strategy() -> BoxedStrategy<Case> {
+pub fn strategy() -> BoxedStrategy<Case> {
     (crate::c01::be_strategy(), encp_strategy(), any::<bool>()).prop_map(|(be, p, compressed)| Case { be, p, compressed }).boxed()
 }
 
